@@ -41,10 +41,11 @@ def run(ctx):
     for cfg in (["MergeMC_quick.cfg", "MergeMC_quick2.cfg"] if quick else ["MergeMC_quick2.cfg", "MergeMC_thorough.cfg"]):
         res = tlc.run("Merge", cfg, tag="c19mc", timeout=6000)
         ctx.add_tlc(res, "M:" + cfg)
-    res = tlc.run("Merge", "MergeMC_kf_SkipWiderSecond.cfg", expect_violation=True, tag="c19kf", timeout=3000)
-    if not res.violation or "Covers" not in res.violation:
-        raise tlc.MachineryError("model: merge() as it is (SkipWiderSecond) does not violate Covers")
-    ctx.note("quirks_rejected_by_model", ["SkipWiderSecond"])
+    for q in ("SkipWiderSecond", "StaleItems", "TopReadAsBottom"):
+        res = tlc.run("Merge", "MergeMC_kf_%s.cfg" % q, expect_violation=True, tag="c19kf", timeout=3000)
+        if not res.violation or "Covers" not in res.violation:
+            raise tlc.MachineryError("model: quirk %s alone does not violate Covers" % q)
+    ctx.note("quirks_rejected_by_model", ["SkipWiderSecond", "StaleItems", "TopReadAsBottom"])
     ctx.note("selftest_fault_detected_by_model", res.violation)
     if quick:
         tr = c19run.generate(ctx, "MergeGen_small.cfg", "small", stride=211)
